@@ -82,11 +82,18 @@ def gen_fit_case(g):
     c = {"kind": "fit", "topo": topo, "descs": descs, "edges": edges, "fb": {str(k): v for k, v in fb.items()},
          "lens": lens, "warmup": g.randint(0, min(2, min(lens) - 1)), "seed": g.randint(0, 10 ** 9),
          "container": g.choice(["list", "3d"]) if nseq > 1 else "2d",
-         "targets_as": g.choice(["array", "mapping"]), "refit": topo == "esn" and g.chance(0.5),
+         "targets_as": g.choice(["array", "mapping"]), "refit": (topo == "esn" or nseq == 1) and g.chance(0.5),
+         "failed_between": g.choice([None, None, "short", "nan"]) if (topo == "esn" or nseq == 1) else None,
          "force_teachers": not (topo in ("chain", "chain_fb") and g.chance(0.25))}
     if c["container"] == "3d":
         c["lens"] = [lens[0]] * nseq
         c["warmup"] = min(c["warmup"], lens[0] - 1)
+    if (c["refit"] or c["failed_between"]) and topo != "esn":
+        # an earlier fit leaves the external equation's internal_state behind, which no reset clears (finding K4 of
+        # C08): histories are generated for the internal equation only
+        for d in descs:
+            if d["kind"] == "reservoir":
+                d["eq"] = "internal"
     return c
 
 
@@ -213,6 +220,23 @@ def check_fit(ctx, c):
                 c0 = dict(c, seed=c["seed"] + 17)
                 X0, Y0 = fit_data(c0, descs[0]["in_dim"], ridge_dims)
                 esn.fit(pack(X0, c["container"]), pack(Y0[ridge_idx[0]], c["container"]), warmup=c["warmup"])
+            if c.get("failed_between"):
+                # ... nor a fit that FAILED (while accumulating: a sequence too short for the warm-up; or in the final
+                # solve: a NaN target), with or without a completed fit before it
+                c1 = dict(c, seed=c["seed"] + 29, lens=[6, 6, 6])
+                X1, Y1 = fit_data(c1, descs[0]["in_dim"], ridge_dims)
+                Y1 = [np.array(y, dtype=float) for y in Y1[ridge_idx[0]]]
+                X1 = [np.array(x, dtype=float) for x in X1]
+                if c["failed_between"] == "short":
+                    X1[-1], Y1[-1] = X1[-1][:1], Y1[-1][:1]
+                    wb = 3
+                else:
+                    Y1[1][2, 0] = np.nan
+                    wb = 0
+                try:
+                    esn.fit(X1, Y1, warmup=wb)
+                except Exception:  # noqa
+                    pass
             esn.fit(Xarg, Yarg, warmup=c["warmup"])
             readouts = {ridge_idx[0]: ro}
         else:
@@ -224,6 +248,35 @@ def check_fit(ctx, c):
             kw = {}
             if not c.get("force_teachers", True):
                 kw["force_teachers"] = False
+            if c.get("refit") or c.get("failed_between"):
+                # (single-sequence cases only: the final fit then starts from reset states, like the explicit procedure)
+                def named(Ys):
+                    if c["targets_as"] == "array" and len(ridge_idx) == 1:
+                        return Ys[ridge_idx[0]]
+                    return {b.nodes[i].name: Ys[i] for i in ridge_idx}
+                if c.get("refit"):
+                    c0 = dict(c, seed=c["seed"] + 17)
+                    X0, Y0 = fit_data(c0, descs[0]["in_dim"], ridge_dims)
+                    b.model.fit(pack(X0, c["container"]), {k_: pack(v, c["container"]) for k_, v in named(Y0).items()}
+                                if isinstance(named(Y0), dict) else pack(named(Y0), c["container"]), warmup=c["warmup"], **kw)
+                if c.get("failed_between"):
+                    c1 = dict(c, seed=c["seed"] + 29, lens=[6, 6, 6])
+                    X1, Y1 = fit_data(c1, descs[0]["in_dim"], ridge_dims)
+                    X1 = [np.array(x, dtype=float) for x in X1]
+                    Y1 = {i: [np.array(y, dtype=float) for y in Y1[i]] for i in ridge_idx}
+                    if c["failed_between"] == "short":
+                        X1[-1] = X1[-1][:1]
+                        for i in ridge_idx:
+                            Y1[i][-1] = Y1[i][-1][:1]
+                        wb = 3
+                    else:
+                        Y1[ridge_idx[-1]][1][2, 0] = np.nan
+                        wb = 0
+                    try:
+                        b.model.fit(X1, named(Y1), warmup=wb, **kw)
+                    except Exception:  # noqa
+                        pass
+                kw["reset"] = True
             b.model.fit(Xarg, Yarg, warmup=c["warmup"], **kw)
             readouts = {i: b.nodes[i] for i in ridge_idx}
     except Exception as e:  # noqa
@@ -261,7 +314,7 @@ def check_fit(ctx, c):
     if mo[0] != "ok":
         raise common.FrameworkError("model rejected a C06 fit case: " + mo[1])
     ctx.count(c, nontrivial=len(ridge_idx) >= 1 and sum(c["lens"]) - c["warmup"] * len(c["lens"]) >= 2, obligation=ob)
-    ctx.stat(f"force_teachers={c.get('force_teachers', True)} refit={bool(c.get('refit'))}")
+    ctx.stat(f"force_teachers={c.get('force_teachers', True)} refit={bool(c.get('refit'))} failed_between={c.get('failed_between')}")
     ctx.stat(f"fit topo={c['topo']} nseq={len(c['lens'])} warmup={c['warmup']} targets={c['targets_as']} container={c['container']} fb={bool(c['fb'])}")
     ctx.sample({k: c[k] for k in ("topo", "lens", "warmup", "container", "targets_as", "fb")})
     for i in ridge_idx:
